@@ -784,6 +784,14 @@ def quad_exact(A, c, k, x):
     return Fraction(k) - sum(d[i] * sum(Fraction(A[i][j]) * d[j] for j in range(n)) for i in range(n))
 
 
+def _nm_bounds_inert(rb, ru):
+    """True when the bounded run `rb` and the unbounded run `ru` on the same input are bit-identical."""
+    return (rb.nit == ru.nit and rb.success == ru.success and
+            np.asarray(rb.x).tobytes() == np.asarray(ru.x).tobytes() and
+            np.float64(rb.fun).tobytes() == np.float64(ru.fun).tobytes() and
+            np.asarray(rb.final_simplex[0]).tobytes() == np.asarray(ru.final_simplex[0]).tobytes())
+
+
 def box_qp_max(A, c, k, bounds):
     """exact maximiser of the concave quadratic over the box, by enumerating active sets
     (n <= 3): returns (value, point) as Fractions"""
@@ -1005,9 +1013,12 @@ def gen_neldermead(ctx, cases, n_cases):
                 ctx.count("nm:success-away-from-maximiser:" + kind)
                 ctx.spec_fail("nm_success_f_tie", "nelder_mead: success=True on equal f-values at a wide simplex, f(x) is "
                               "%.3e below the maximum" % float(gap), rep)
-            elif bounds is None and min((abs(v) * 0.05 if v != 0 else ZD) for v in x0) <= 1e-3:
+            elif min((abs(v) * 0.05 if v != 0 else ZD) for v in x0) <= 1e-3 and (bounds is None or _nm_bounds_inert(
+                    res, nelder_mead(_quad, x0n, args=(An, cn, k), tol_f=tol_f, tol_x=tol_x, max_iter=max_iter))):
                 # an initial edge of the simplex is tiny (x0[i] = 0 gives 0.00025): LV_ratio measures the volume
-                # relative to the INITIAL simplex, so term_x fires on a thin simplex that has not reached the maximiser
+                # relative to the INITIAL simplex, so term_x fires on a thin simplex that has not reached the maximiser.
+                # Bounds that no vertex ever touched do not make this a different call: the unbounded run on the same
+                # input must be bit-identical (x, fun, nit, final_simplex), otherwise the generic key below applies.
                 ctx.count("nm:success-away-from-maximiser:" + kind)
                 ctx.spec_fail("nm_success_tiny_initial_edge", "nelder_mead: success=True from a start with a tiny initial "
                               "simplex edge, f(x) is %.3e below the maximum (narrow final simplex)" % float(gap), rep)
